@@ -13,23 +13,22 @@ package link_solicit
 // protoHashPre: the byte string that is hashed for (session, protocol ID, context) — read off
 // the writes of ComputeProtocolHash. Matching is by hash equality, i.e. (BLAKE3 collision-free)
 // by equality of these preimages, so the encoding must be injective in (protocol ID, context).
-//@ spec fun protoHashPre(s bytes, p string, c bytes) bytes = s ++ be32(len(p)) ++ p ++ c
+//@ spec fun protoHashPre(s bytes, p string, c bytes) bytes = s ++ be64(len(p)) ++ p ++ c
 
 //@ func ComputeProtocolHash
-//@   requires len(protocolID) < 4294967296
 //@   ensures content(ret) == blake3(protoHashPre(sessionID, protocolID, context))[..32]
 //@   ensures len(ret) == 32
 //@   fresh ret
 
 // Decoding: protocol ID and context are recovered from the preimage (32-byte session ID,
-// 4-byte length, protocol ID, context), so the encoding has a left inverse.
-//@ spec fun prePID(x bytes) bytes = x[36..36 + be32dec(x[32..36])]
-//@ spec fun preCtx(x bytes) bytes = x[36 + be32dec(x[32..36])..]
-//@ lemma protoHashPre-decode: forall s bytes, p string, c bytes :: len(s) == 32 && len(p) < 4294967296 ==> prePID(protoHashPre(s, p, c)) == p && preCtx(protoHashPre(s, p, c)) == c
+// 8-byte length, protocol ID, context), so the encoding has a left inverse.
+//@ spec fun prePID(x bytes) bytes = x[40..40 + be64dec(x[32..40])]
+//@ spec fun preCtx(x bytes) bytes = x[40 + be64dec(x[32..40])..]
+//@ lemma protoHashPre-decode: forall s bytes, p string, c bytes :: len(s) == 32 && len(p) < 18446744073709551616 ==> prePID(protoHashPre(s, p, c)) == p && preCtx(protoHashPre(s, p, c)) == c
 
 // Injectivity: for a fixed 32-byte session ID, equal preimages have equal protocol IDs and contexts,
 // however the bytes are split between the two fields.
-//@ lemma protoHashPre-injective: forall s bytes, p1 string, c1 bytes, p2 string, c2 bytes :: len(s) == 32 && len(p1) < 4294967296 && len(p2) < 4294967296 && protoHashPre(s, p1, c1) == protoHashPre(s, p2, c2) ==> p1 == p2 && c1 == c2
+//@ lemma protoHashPre-injective: forall s bytes, p1 string, c1 bytes, p2 string, c2 bytes :: len(s) == 32 && len(p1) < 18446744073709551616 && len(p2) < 18446744073709551616 && protoHashPre(s, p1, c1) == protoHashPre(s, p2, c2) ==> p1 == p2 && c1 == c2
 
 // ---- C32: session ID and intersection ----
 // sessHash(lo, hi): the session ID is a function of the ordered pair of peer IDs only, so both
